@@ -111,12 +111,7 @@ def probe_free_deactivates(repo):
     q = Qubit(conn)
     q.free()
     q2 = Qubit(conn)
-    fd = q2.qubit_id == 0
-    try:
-        conn.close()
-    except Exception:  # noqa
-        pass
-    return fd
+    return q2.qubit_id == 0
 
 
 # ------------------------------------------------------------------ Coq terms of an observation
@@ -330,8 +325,5 @@ def run_sequence(repo, prog, compile_only=True, max_qubits=64, assemble=True):
             break
         steps.append(sa.active_regs(conn))
         peaks.append(peak[0])
-    try:
-        conn.close()
-    except Exception:  # noqa
-        pass
+    # no conn.close(): it would execute what is still pending
     return steps, err, peaks
